@@ -410,7 +410,7 @@ func (e *CoreEnd) StartSender(kind int, pausePM, pauseMaxUs int) {
 			return
 		}
 		mss := e.Cfg.mss()
-		if !e.Cfg.Stream && e.Peer.Cfg.rcvWnd() >= 256 && e.MaxMsg == 0 && s.Tape.Chance(e.sendStream+"/big", 150) {
+		if !e.Cfg.Stream && e.Peer.Cfg.rcvWnd() >= 256 && e.MaxMsg == 0 && mss <= 1500 && s.Tape.Chance(e.sendStream+"/big", 150) {
 			// A message of exactly 256 fragments (one more than the frg byte can
 			// number): the core may refuse it - then it was never sent - or accept
 			// it - then it must arrive like any other, with its boundaries. (A stream
